@@ -152,7 +152,10 @@ harness! {
         let rs = recon_settings(false, false, 2, 4);
         let tokens = vec![tok("ab", 0, any_token_type()), tok("cd", 0, any_token_type()), tok("ef", 0, any_token_type())];
         let before: [(u16, u16, u16, u16); 3] = [(kani::any(), kani::any(), kani::any(), kani::any()), (kani::any(), kani::any(), kani::any(), kani::any()), (kani::any(), kani::any(), kani::any(), kani::any())];
-        let fmt = vec![fd(false, before[0].0, before[0].1, before[0].2, before[0].3), fd(false, before[1].0, before[1].1, before[1].2, before[1].3), fd(false, before[2].0, before[2].1, before[2].2, before[2].3)];
+        // ignored flags symbolic: a solution is applied to every token of the line all the same
+        // (the reconstructor, not this step, is what keeps ignored tokens verbatim)
+        let ig: [bool; 3] = [kani::any(), kani::any(), kani::any()];
+        let fmt = vec![fd(ig[0], before[0].0, before[0].1, before[0].2, before[0].3), fd(ig[1], before[1].0, before[1].1, before[1].2, before[1].3), fd(ig[2], before[2].0, before[2].1, before[2].2, before[2].3)];
         let mut ft = FormattedTokens::verif_new(leak_tokens(tokens), fmt);
         let line = LogicalLine::new(None, 0, vec![0, 1, 2], LogicalLineType::Unknown);
         let start: (u16, u16) = (any_upto(1000), any_upto(1000));
@@ -174,8 +177,10 @@ harness! {
                 assert!(f.newlines_before == 0 && f.indentations_before == 0 && f.continuations_before == 0);
             }
             assert!(f.spaces_before == before[i].3);
+            assert!(f.is_ignored() == ig[i]);
             i += 1;
         }
+        cover!(ig[0] && !ig[2], "ignored_first_token");
         cover!(d[0].0 && before[0].0 > 2, "clamped_down");
         cover!(d[0].0 && before[0].0 == 0, "clamped_up");
         std::mem::forget(ft);
